@@ -1,3 +1,6 @@
+pub mod pct;
+pub mod range;
+pub mod time;
 pub mod wildcard;
 pub mod xmlcanon;
 
@@ -6,6 +9,12 @@ pub fn self_test_all() -> Result<usize, String> {
     wildcard::self_test()?;
     n += 1;
     xmlcanon::self_test()?;
+    n += 1;
+    time::self_test()?;
+    n += 1;
+    range::self_test()?;
+    n += 1;
+    pct::self_test()?;
     n += 1;
     Ok(n)
 }
